@@ -66,11 +66,11 @@ let () =
            let ef' = if dl <> Z0 then xb_zadd cur dl else (if cur = t0 then ef else Z0) in
            if t1 <> z_of_int (-1) then Hashtbl.replace ds k (write_return (e = "c") false o t1 (get k));
            pick (accept_write tol !hz cur t1 ef' (isb st) !tcp clo chi olo ohi creq o) (predict_write cur ef' (isb st) !tcp clo chi creq)
-         | ("Close" | "CMux" | "SMux"), [first; st; rearm] ->
+         | ("Close" | "CMux" | "SMux"), [first; st] ->
            (* closing an underlay closes its sessions one after the other; a session whose close request cannot be
               transmitted any more (connection / socket already closed) uses its whole 1 s poll *)
            let bound = xb_zadd close_bound (xb_zmul !nsess (z_of_int 1000000)) in
-           pick (accept_close bound read_timeout_us t0 t1 (isb first) (isb st) !tcp (isb rearm) o) (predict_close (isb st) !tcp (isb rearm))
+           pick (accept_close bound t0 t1 (isb first) (isb st) !tcp o) (predict_close (isb st) !tcp)
          | _ -> "ERR") in
       print_endline res
     | _ -> print_endline "-")
